@@ -214,9 +214,34 @@ req = json.load(sys.stdin)
 timing = {}
 
 
+class CaseTimeout(BaseException):
+    pass
+
+
+def _alarm(signum, frame):
+    raise CaseTimeout()
+
+
+import signal, resource
+signal.signal(signal.SIGALRM, _alarm)
+try:   # a broken implementation must not exhaust the machine: cap the address space of this process
+    resource.setrlimit(resource.RLIMIT_AS, (12 * 2 ** 30, 12 * 2 ** 30))
+except (ValueError, OSError):
+    pass
+CASE_TIMEOUT = int(req.get("case_timeout", 90))
+
+
 def timed(c):
     t0 = time.time()
-    r = run_prep(c)
+    signal.alarm(CASE_TIMEOUT)
+    try:
+        r = run_prep(c)
+    except CaseTimeout:
+        r = {"dev_err": f"Timeout: no result within {CASE_TIMEOUT}s", "dec_err": "Timeout", "gr_err": "Timeout"}
+    except MemoryError:
+        r = {"dev_err": "MemoryError", "dec_err": "MemoryError", "gr_err": "MemoryError"}
+    finally:
+        signal.alarm(0)
     timing[c["t"]] = round(timing.get(c["t"], 0.0) + time.time() - t0, 2)
     return r
 
